@@ -211,6 +211,9 @@ public:
     double x2 = hyper_ ?
         (tanh(x / scale_) + 1.) * (upperBound_ - lowerBound_) / 2. + lowerBound_ :
         (atan(x / scale_) + NumConstants::PI() / 2.) * (upperBound_ - lowerBound_) / NumConstants::PI() + lowerBound_;
+    // Where the transformation saturates, (b - a) + a may round to a value beyond b: stay within the bounds.
+    if (x2 < lowerBound_) x2 = lowerBound_;
+    if (x2 > upperBound_) x2 = upperBound_;
     return x2;
   }
 
